@@ -68,6 +68,10 @@ def replay(recording, keep=False):
                     sc.check_notes(r["where"])
                 elif what == "blame_tip":
                     sc.check_blame_tip(r["where"], complete=r.get("complete", True), files=r.get("files"), rule=r.get("rule", "C01"))
+                elif what == "stats_all":
+                    from .props import c19
+                    for sha in w.ogit("rev-list", "--all", "--no-merges").split():
+                        c19.check_commit_stats(sc, sha)
                 elif what == "commit_exact":
                     sc.check_commit_exact(r["commit"], r["where"], rule=r.get("rule", "C01"), parent=r.get("parent"), complete=r.get("complete", True))
         ks = set()
